@@ -101,7 +101,10 @@ fn run(input: RunInput) -> ScenFuture {
                                 let _ = s.write_all(&wire::preamble(1)).await;
                                 let _ = s.finish();
                                 if hang_up {
-                                    // (the frame is on its way; the close follows it at once)
+                                    // (the frame is on its way; the close follows it a fraction of a
+                                    // millisecond later, in a datagram of its own: the two tend to
+                                    // be picked up together at the other end)
+                                    tokio::time::sleep(std::time::Duration::from_micros(200)).await;
                                     conn.close(0u32.into(), b"");
                                     return;
                                 }
